@@ -12,5 +12,5 @@ mkdir -p "$work/repo"
 cd "$(dirname "$0")/.."
 for id in "$@"; do
   DX_REPO="$work/repo" VERIF_NO_EVIDENCE=1 ./check "$id" --tier "${TIER:-quick}" | tail -3
-  echo "exit=$? for $id"
+  echo "(see the rc= field of the check line above for $id)"
 done
